@@ -1,6 +1,340 @@
-/- Driver/C03 — stub until the property's model driver is written. -/
+/-
+Driver/C03 — line-protocol driver over the C03 models (encoding table, CDN archive index, archive
+group, root manifest, TVFS manifest). Every case starts with `begin <area> …`.
+-/
 import Driver.Common
-open Drv
+import Cascette.Model.Paged
+import Cascette.Model.Encoding
+import Cascette.Model.ArchiveIndex
+import Cascette.Model.RootFile
+import Cascette.Model.TvfsPath
+import Cascette.Model.Jenkins
+open Cascette Drv
+open Cascette.Model
+
+structure St where
+  mode : String := ""
+  -- encoding
+  cpage : Nat := 0
+  epage : Nat := 0
+  cents : List Encoding.CEntry := []
+  eents : List (Paged.Key × Encoding.ESpec × Nat) := []
+  enc : Option Encoding.File := none
+  -- archive index
+  ks : Nat := 16
+  ob : Nat := 4
+  rpb : Nat := 170
+  ients : List ArchiveIndex.Entry := []
+  idx : Option (Paged.Chunked ArchiveIndex.Entry) := none
+  gents : List ArchiveIndex.GEntry := []
+  grp : Option (List ArchiveIndex.GEntry) := none
+  -- root
+  rver : RootFile.Version := .v1
+  rrecs : List (Nat × Nat × RootFile.Rec) := []
+  root : Option RootFile.Parsed := none
+  -- tvfs
+  tflags : Nat := 1
+  tfiles : List TvfsPath.FileRec := []
+  tvfs : Option TvfsPath.Built := none
+  -- resolver chain
+  presecs : List (Nat × List Nat × List Nat × Nat × Nat) := []
+  res : Option (RootFile.Parsed × Encoding.File) := none
+  built : Bool := false
+
+def hx (k : List Nat) : String := hexOfNats k
+
+def specStr (sp : List Nat) : String := String.ofList (sp.map Char.ofNat)
+
+def keys? (s : String) : Option (List (List Nat)) :=
+  (s.splitOn ",").mapM parseHexNat
+
+def optHex (s : String) : Option (Option (List Nat)) :=
+  if s == "-" then some none else (parseHexNat s).map some
+
+def joinOr (l : List String) (sep : String) : String :=
+  if l.isEmpty then "none" else sep.intercalate l
+
+def groupBlocks (recs : List (Nat × Nat × RootFile.Rec)) : List (Nat × Nat × List RootFile.Rec) :=
+  recs.foldl (fun acc (l, c, r) =>
+    if acc.any (fun b => b.1 == l && b.2.1 == c) then
+      acc.map fun b => if b.1 == l && b.2.1 == c then (b.1, b.2.1, b.2.2 ++ [r]) else b
+    else acc ++ [(l, c, [r])]) []
+
+def verOf : Nat → Option RootFile.Version
+  | 1 => some .v1 | 2 => some .v2 | 3 => some .v3 | 4 => some .v4 | _ => none
+
+def showHeader : RootFile.Header → String
+  | .classic l t n => s!"c:{if l then 1 else 0},{t},{n}"
+  | .ext l hs v t n p => s!"x:{if l then 1 else 0},{hs},{v},{t},{n},{p}"
+
+def idxEntryStr (e : ArchiveIndex.Entry) : String :=
+  s!"{e.size} {e.offset} " ++ (match e.archive with | some a => toString a | none => "-")
+
+
+/-- `calculate_name_hash` for ASCII paths: upper-case, `/` → `\\`, Jenkins96 hash64 -/
+def nameHash (path : List Nat) : Nat :=
+  let norm := path.map fun b => if 97 ≤ b ∧ b ≤ 122 then b - 32 else if b = 47 then 92 else b
+  (Model.Jenkins.jenkins96 (norm.map (BitVec.ofNat 8))).1.toNat
+
+/-- `ContentResolver::resolve_file_data_id`: the map is filled in block/record order, later wins -/
+def resFdid (p : RootFile.Parsed) (fdid : Nat) : Option (List Nat) :=
+  ((p.blocks.flatMap (·.recs)).reverse.find? (·.fdid == fdid)).map (·.ckey)
+
+/-- `ContentResolver::resolve_path`: first record whose name hash equals the path's hash -/
+def resPath (p : RootFile.Parsed) (path : List Nat) : Option (List Nat) :=
+  ((p.blocks.flatMap (·.recs)).find? (·.nameHash == some (nameHash path))).map (·.ckey)
+
+/-- `resolve_content_key`: cache filled from every parsed CKey page entry (first EKey), later wins -/
+def resCkey (f : Encoding.File) (ck : List Nat) : Option (List Nat) :=
+  ((f.ctable.flatMap (·.2)).reverse.find? (fun e => e.ckey == ck && !e.ekeys.isEmpty)).bind (·.ekeys.head?)
+
+def step (s : St) (toks : List String) : St × String :=
+  match toks with
+  | ["begin", "enc", cp, ep] =>
+    match cp.toNat?, ep.toNat? with
+    | some cp, some ep => ({ mode := "enc", cpage := cp, epage := ep }, "ok")
+    | _, _ => ({}, "bad-op")
+  | ["begin", "idx", ks, ob, rpb] =>
+    match ks.toNat?, ob.toNat?, rpb.toNat? with
+    | some ks, some ob, some rpb =>
+      if rpb = 0 ∨ ¬ (ob = 4 ∨ ob = 5 ∨ ob = 6) then ({}, "bad-op") else ({ mode := "idx", ks := ks, ob := ob, rpb := rpb }, "ok")
+    | _, _, _ => ({}, "bad-op")
+  | ["begin", "grp", rpb] =>
+    match rpb.toNat? with
+    | some rpb => if rpb = 0 then ({}, "bad-op") else ({ mode := "grp", rpb := rpb }, "ok")
+    | none => ({}, "bad-op")
+  | ["begin", "root", v] =>
+    match v.toNat?.bind verOf with
+    | some v => ({ mode := "root", rver := v }, "ok")
+    | none => ({}, "bad-op")
+  | ["begin", "res", v] =>
+    match v.toNat?.bind verOf with
+    | some v => ({ mode := "res", rver := v }, "ok")
+    | none => ({}, "bad-op")
+  | ["begin", "tvfs", fl] =>
+    match fl.toNat? with
+    | some fl => if fl > 1 then ({}, "bad-op") else ({ mode := "tvfs", tflags := fl }, "ok")
+    | none => ({}, "bad-op")
+  | ["hdr", kind, little, a, b, c, d, e] =>
+    match a.toNat?, b.toNat?, c.toNat?, d.toNat?, e.toNat? with
+    | some a, some b, some c, some d, some e =>
+      let l := little == "l"
+      let h : RootFile.Header := if kind == "c" then .classic l a b else .ext l a b c d e
+      let bytes := h.write ++ List.replicate 128 0
+      let det := match RootFile.detect bytes with | some v => toString v.num | none => "err"
+      let rd := match RootFile.Header.read bytes with
+        | some (h', rest) => showHeader h' ++ s!" hv={h'.version.num} left={rest.length}"
+        | none => "err"
+      (s, s!"det={det} rd={rd}")
+    | _, _, _, _, _ => (s, "bad-op")
+  | ["deltas", ids] =>
+    match (ids.splitOn ",").mapM String.toNat? with
+    | some ids =>
+      let ds := RootFile.encodeDeltas ids
+      (s, ",".intercalate (ds.map toString) ++ " " ++ ",".intercalate ((RootFile.decodeDeltas ds).map toString))
+    | none => (s, "bad-op")
+  | _ =>
+  if s.mode == "enc" then
+    match toks with
+    | ["ck", k, sz, eks] =>
+      match parseHexNat k, sz.toNat?, keys? eks with
+      | some k, some sz, some eks =>
+        if k.length ≠ 16 ∨ eks.any (·.length ≠ 16) ∨ s.built then (s, "bad-op")
+        else ({ s with cents := { ckey := k, size := sz, ekeys := eks } :: s.cents }, "ok")
+      | _, _, _ => (s, "bad-op")
+    | ["ek", k, spec, sz] =>
+      match parseHexNat k, sz.toNat? with
+      | some k, some sz =>
+        if k.length ≠ 16 ∨ s.built then (s, "bad-op") else ({ s with eents := (k, spec.toList.map Char.toNat, sz) :: s.eents }, "ok")
+      | _, _ => (s, "bad-op")
+    | ["build"] =>
+      let b : Encoding.Builder := { cpage := s.cpage, epage := s.epage, centries := s.cents.reverse, eentries := s.eents.reverse }
+      match b.buildParse with
+      | some f =>
+        let c := (f.ctable.map (·.2.length)).sum
+        let e := (f.etable.map (·.2.length)).sum
+        ({ s with enc := some f, built := true }, s!"ok c={c} e={e} cp={f.ctable.length} ep={f.etable.length}")
+      | none => ({ s with enc := none, built := true }, "err:parse")
+    | [op, arg] =>
+      match s.enc with
+      | none => (s, if s.built then "err:nofile" else "bad-op")
+      | some f =>
+        match op with
+        | "fe" =>
+          match parseHexNat arg with
+          | some k => (s, match f.findEncoding k with
+              | some (some (some ek)) => hx ek
+              | some _ => "none"
+              | none => "panic")
+          | none => (s, "bad-op")
+        | "fa" =>
+          match parseHexNat arg with
+          | some k => (s, match f.findAll k with
+              | some eks => joinOr (eks.map hx) ","
+              | none => "panic")
+          | none => (s, "bad-op")
+        | "fs" =>
+          match parseHexNat arg with
+          | some k => (s, match f.findEspec k with
+              | some (some sp) => specStr sp
+              | some none => "none"
+              | none => "panic")
+          | none => (s, "bad-op")
+        | "bfe" =>
+          match keys? arg with
+          | some ks => (s, ",".intercalate ((f.batchEncodings ks).map fun r =>
+              match r.bind (·.ekeys.head?) with | some ek => hx ek | none => "none"))
+          | none => (s, "bad-op")
+        | "bfa" =>
+          match keys? arg with
+          | some ks => (s, ",".intercalate ((f.batchEncodings ks).map fun r =>
+              match r with | some e => joinOr (e.ekeys.map hx) "+" | none => "none"))
+          | none => (s, "bad-op")
+        | "bfs" =>
+          match keys? arg with
+          | some ks => (s, ",".intercalate ((f.batchEspecs ks).map fun r =>
+              match r.bind (fun e => f.especs[e.especIdx]?) with | some sp => specStr sp | none => "none"))
+          | none => (s, "bad-op")
+        | _ => (s, "bad-op")
+    | _ => (s, "bad-op")
+  else if s.mode == "idx" then
+    match toks with
+    | ["e", k, sz, off] =>
+      match parseHexNat k, sz.toNat?, off.toNat? with
+      | some k, some sz, some off =>
+        if k.length ≠ s.ks ∨ s.built then (s, "bad-op")
+        else ({ s with ients := { key := k, size := sz, offset := off, archive := none } :: s.ients }, "ok")
+      | _, _, _ => (s, "bad-op")
+    | ["build"] =>
+      match ArchiveIndex.buildParse s.ks s.ob s.rpb s.ients.reverse with
+      | some c => ({ s with idx := some c, built := true }, s!"ok n={c.entries.length} toc={c.toc.length}")
+      | none => ({ s with idx := none, built := true }, "err:parse")
+    | [op, arg] =>
+      match s.idx, parseHexNat arg with
+      | none, _ => (s, if s.built then "err:nofile" else "bad-op")
+      | some _, none => (s, "bad-op")
+      | some c, some k =>
+        match op with
+        | "f" => (s, match ArchiveIndex.find c k with
+            | some (some e) => idxEntryStr e
+            | some none => "none"
+            | none => "panic")
+        | "fa" => (s, match ArchiveIndex.findAll c k with
+            | some es => joinOr (es.map idxEntryStr) ";"
+            | none => "panic")
+        | _ => (s, "bad-op")
+    | _ => (s, "bad-op")
+  else if s.mode == "grp" then
+    match toks with
+    | ["g", k, a, off, sz] =>
+      match parseHexNat k, a.toNat?, off.toNat?, sz.toNat? with
+      | some k, some a, some off, some sz =>
+        if k.length ≠ 16 ∨ s.built then (s, "bad-op")
+        else ({ s with gents := { key := k, archive := a, offset := off, size := sz } :: s.gents }, "ok")
+      | _, _, _, _ => (s, "bad-op")
+    | ["build"] =>
+      match ArchiveIndex.groupBuildParse s.rpb s.gents.reverse with
+      | some g => ({ s with grp := some g, built := true }, s!"ok n={g.length}")
+      | none => ({ s with grp := none, built := true }, "err:parse")
+    | ["f", arg] =>
+      match s.grp, parseHexNat arg with
+      | none, _ => (s, if s.built then "err:nofile" else "bad-op")
+      | some _, none => (s, "bad-op")
+      | some g, some k => (s, match ArchiveIndex.groupFind g k with
+          | some e => s!"{e.archive} {e.offset} {e.size}"
+          | none => "none")
+    | _ => (s, "bad-op")
+  else if s.mode == "root" then
+    match toks with
+    | ["r", fd, ck, nh, loc, cf] =>
+      match fd.toNat?, parseHexNat ck, (if nh == "-" then some none else nh.toNat?.map some), loc.toNat?, cf.toNat? with
+      | some fd, some ck, some nh, some loc, some cf =>
+        if ck.length ≠ 16 ∨ s.built then (s, "bad-op")
+        else ({ s with rrecs := (loc, cf, { fdid := fd, ckey := ck, nameHash := nh }) :: s.rrecs }, "ok")
+      | _, _, _, _, _ => (s, "bad-op")
+    | ["build"] =>
+      match RootFile.build s.rver (groupBlocks s.rrecs.reverse) with
+      | none => ({ s with built := true }, "err:build")
+      | some bytes =>
+        match RootFile.parse bytes with
+        | none => ({ s with built := true }, "err:parse")
+        | some p =>
+          ({ s with root := some p, built := true },
+            s!"ok ver={p.version.num} blocks={p.blocks.length} recs={(p.blocks.map (·.recs.length)).sum}")
+    | [op, a, loc, cf] =>
+      match s.root, a.toNat?, loc.toNat?, cf.toNat? with
+      | some p, some a, some loc, some cf =>
+        if op == "id" then (s, match p.resolveById a loc cf with | some ck => hx ck | none => "none")
+        else if op == "nh" then (s, match p.resolveByHash a loc cf with | some ck => hx ck | none => "none")
+        else (s, "bad-op")
+      | none, some _, some _, some _ => (s, if s.built then "err:nofile" else "bad-op")
+      | _, _, _, _ => (s, "bad-op")
+    | _ => (s, "bad-op")
+  else if s.mode == "tvfs" then
+    match toks with
+    | ["t", p, ek, es, cs, ck] =>
+      match parseHexNat p, parseHexNat ek, es.toNat?, cs.toNat?, optHex ck with
+      | some p, some ek, some es, some cs, some ck =>
+        if ek.length ≠ 9 ∨ (ck.any (·.length != 16)) ∨ s.built then (s, "bad-op")
+        else ({ s with tfiles := { path := p, ekey := ek, esize := es, csize := cs, ckey := ck } :: s.tfiles }, "ok")
+      | _, _, _, _, _ => (s, "bad-op")
+    | ["build"] =>
+      match TvfsPath.buildParse s.tflags s.tfiles.reverse with
+      | .ok b => ({ s with tvfs := some b, built := true }, s!"ok files={b.files.length}")
+      | .error .trunc => ({ s with built := true }, "err:path-trunc")
+      | .error .node => ({ s with built := true }, "err:path-node")
+    | ["p", arg] =>
+      match s.tvfs, parseHexNat arg with
+      | none, _ => (s, if s.built then "err:nofile" else "bad-op")
+      | some _, none => (s, "bad-op")
+      | some b, some path => (s, match b.resolve path with
+          | some f => s!"{hx f.ekey} {f.esize} " ++ (match f.ckey with | some c => hx c | none => "-")
+          | none => "none")
+    | _ => (s, "bad-op")
+  else if s.mode == "res" then
+    match toks with
+    | ["rp", fd, ck, path, loc, cf] =>
+      match fd.toNat?, parseHexNat ck, parseHexNat path, loc.toNat?, cf.toNat? with
+      | some fd, some ck, some path, some loc, some cf =>
+        if ck.length ≠ 16 ∨ s.built ∨ path.any (· ≥ 128) then (s, "bad-op")
+        else ({ s with presecs := (fd, ck, path, loc, cf) :: s.presecs }, "ok")
+      | _, _, _, _, _ => (s, "bad-op")
+    | ["ck", k, sz, eks] =>
+      match parseHexNat k, sz.toNat?, keys? eks with
+      | some k, some sz, some eks =>
+        if k.length ≠ 16 ∨ eks.any (·.length ≠ 16) ∨ s.built then (s, "bad-op")
+        else ({ s with cents := { ckey := k, size := sz, ekeys := eks } :: s.cents }, "ok")
+      | _, _, _ => (s, "bad-op")
+    | ["ek", k, spec, sz] =>
+      match parseHexNat k, sz.toNat? with
+      | some k, some sz =>
+        if k.length ≠ 16 ∨ s.built then (s, "bad-op") else ({ s with eents := (k, spec.toList.map Char.toNat, sz) :: s.eents }, "ok")
+      | _, _ => (s, "bad-op")
+    | ["build"] =>
+      let recs := s.presecs.reverse.map fun (fd, ck, path, loc, cf) =>
+        (loc, cf, ({ fdid := fd, ckey := ck, nameHash := some (nameHash path) } : RootFile.Rec))
+      match RootFile.build s.rver (groupBlocks recs) with
+      | none => ({ s with built := true }, "err:build")
+      | some bytes =>
+        let b : Encoding.Builder := { cpage := 1024, epage := 1024, centries := s.cents.reverse, eentries := s.eents.reverse }
+        match RootFile.parse bytes, b.buildParse with
+        | some p, some f => ({ s with res := some (p, f), built := true }, "ok")
+        | _, _ => ({ s with built := true }, "err:parse")
+    | [op, arg] =>
+      match s.res with
+      | none => (s, if s.built then "err:nofile" else "bad-op")
+      | some (p, f) =>
+        if op == "rf" then
+          match arg.toNat? with
+          | some fd => (s, match (resFdid p fd).bind (resCkey f) with | some ek => hx ek | none => "none")
+          | none => (s, "bad-op")
+        else if op == "rq" then
+          match parseHexNat arg with
+          | some path => (s, match (resPath p path).bind (resCkey f) with | some ek => hx ek | none => "none")
+          | none => (s, "bad-op")
+        else (s, "bad-op")
+    | _ => (s, "bad-op")
+  else (s, "bad-op")
 
 def main : IO Unit := do
-  loopPure (← IO.getStdin) (← IO.getStdout) (fun _ => "bad-op")
+  loopState (← IO.getStdin) (← IO.getStdout) step {}
